@@ -277,25 +277,7 @@ func runC06(t *testing.T, sc *vnet.Scenario) (res c06Result) {
 				return f2 || d2+a2+started != cnt
 			})
 		}
-		del, _, off, failed, firstFail := progress()
-		switch {
-		case stalled:
-		case failed && !keepalive:
-			env.Mu.Lock()
-			var errs []string
-			for d := 0; d < 2; d++ {
-				ds := env.Dir[d]
-				if ds.SendErr != nil {
-					errs = append(errs, fmt.Sprintf("%s Send #%d: %v", ds.Name, ds.SendErrAt, ds.SendErr))
-				}
-				if ds.RecvErr != nil {
-					errs = append(errs, fmt.Sprintf("%s Recv: %v", ds.Name, ds.RecvErr))
-				}
-			}
-			env.Mu.Unlock()
-			res.violation = "connection failed although keepalive is disabled and nobody closed it: " + strings.Join(errs, "; ")
-			res.kind = "closure"
-		case failed:
+		halfOpen := func(firstFail int64) {
 			// Closure by keepalive is allowed; both endpoints' calls must
 			// fail within a bounded time of the first failure.
 			res.labels = append(res.labels, "closed_by_keepalive")
@@ -348,6 +330,27 @@ func runC06(t *testing.T, sc *vnet.Scenario) (res c06Result) {
 				res.violation = fmt.Sprintf("half-open connection: %v after the first failure: %s", limit, strings.Join(open, "; "))
 				res.kind = "half_open"
 			}
+		}
+		del, _, off, failed, firstFail := progress()
+		switch {
+		case stalled:
+		case failed && !keepalive:
+			env.Mu.Lock()
+			var errs []string
+			for d := 0; d < 2; d++ {
+				ds := env.Dir[d]
+				if ds.SendErr != nil {
+					errs = append(errs, fmt.Sprintf("%s Send #%d: %v", ds.Name, ds.SendErrAt, ds.SendErr))
+				}
+				if ds.RecvErr != nil {
+					errs = append(errs, fmt.Sprintf("%s Recv: %v", ds.Name, ds.RecvErr))
+				}
+			}
+			env.Mu.Unlock()
+			res.violation = "connection failed although keepalive is disabled and nobody closed it: " + strings.Join(errs, "; ")
+			res.kind = "closure"
+		case failed:
+			halfOpen(firstFail)
 		case del == off && sc.QuiesceMs > 0:
 			// Quiescence: let outstanding ACK recovery finish, then no
 			// non-ping DATA may appear.
@@ -369,12 +372,21 @@ func runC06(t *testing.T, sc *vnet.Scenario) (res c06Result) {
 				res.labels = append(res.labels, "quiescence_skipped_faults_left")
 				break
 			}
-			if _, _, _, f, _ := progress(); f && !keepalive {
+			if _, _, _, f, ff := progress(); f && !keepalive {
 				res.violation, res.kind = "connection failed while idle although keepalive is disabled", "closure"
+				break
+			} else if f {
+				// closed by keepalive while the fault script was still being
+				// used up: closure is allowed, both ends must notice
+				halfOpen(ff)
 				break
 			}
 			mark := env.Trace.Now()
 			time.Sleep(ms(sc.QuiesceMs))
+			if _, _, _, f, ff := progress(); f && keepalive {
+				halfOpen(ff)
+				break
+			}
 			for _, e := range env.Trace.Snapshot() {
 				if e.T > mark && e.Ev == "send" && e.Type == "DATA" && !strings.Contains(e.Fl, "P") {
 					res.violation = fmt.Sprintf("not quiescent: DATA seq=%d retransmitted at t=%.3fms although everything had been delivered and acknowledged by t=%.3fms",
